@@ -88,6 +88,39 @@ SRV_PATHS = ["/health", "/healthz", "/ping", "/metrics", "/favicon.ico", "/login
 QUERIES = ["", "", "?token=" + _TOK, "?access_token=" + _TOK, "?jwt=" + _TOK + "&debug=1", "?Authorization=Bearer%20" + _TOK]
 
 
+def go_clean(p):
+    """Go's path.Clean, written here (the router looks routes up under path.Clean(r.URL.Path))"""
+    if p == "":
+        return "."
+    rooted = p.startswith("/")
+    segs = []
+    for x in p.split("/"):
+        if x in ("", "."):
+            continue
+        if x == "..":
+            if segs and segs[-1] != "..":
+                segs.pop()
+            elif not rooted:
+                segs.append("..")
+        else:
+            segs.append(x)
+    out = ("/" if rooted else "") + "/".join(segs)
+    return out or ("/" if rooted else ".")
+
+
+def path_aliases(p):
+    """other spellings of a clean path p: (text sent, does the router still find p's route).  Trailing slash, empty
+    segments, "." and ".." segments (plain and percent-encoded), percent-encoded characters (decode to p itself), case."""
+    head, _, last = p.rpartition("/")
+    out = [(p + "/", True), ("/" + p, True), (p + "//", True), (p + "/.", True), (p + "/x/..", True), ("/." + p, True),
+           ("/.." + p, True), ("/x/.." + p, True), (head + "//" + last, True), (head + "/./" + last, True),
+           (head + "/zz/../" + last, True), (head + "/%2e/" + last, True), (p + "/%2E%2E/" + last, True),
+           (p + "%2F", True), (p.upper(), p.upper() == p), (p[:1] + p[1:].capitalize(), p[1:].capitalize() == p[1:])]
+    if last:
+        out += [(head + "/%%%02X" % ord(last[0]) + last[1:], True), (head + "%2F" + last, True)]
+    return [(a, ok) for a, ok in out if a != p and a.startswith("/")]
+
+
 def canon_hdr(name):
     """the key net/http stores a header under (textproto.CanonicalMIMEHeaderKey for token names; "raw:x" = exactly x)"""
     if name.startswith("raw:"):
@@ -427,6 +460,29 @@ class C18(Property):
                         sreqs.append({"tgt": 1, "donor": 2, "j": sj("valid"), "cs": cs("/ms/one", "fb", "B", "normal"), "clean": False})
                         sreqs.append({"tgt": 2, "donor": 2, "j": None, "cs": cs("/s/one", "fb", "B", "normal"), "clean": False})
                 gs = json.loads(json.dumps(groups))
+                if bname == "preflight_h" and cors == "":
+                    # seeded/C18-11 class: EVERY other spelling of the route's path that the router maps onto the same route
+                    # (and two it does not), correctly signed for the canonical spelling: 403 (404), handler not called;
+                    # signed for the spelling sent: a signed request
+                    for m, path, tgt, fp, rsa, tok in (("POST", "/s/one", 2, "fb", "B", None), ("GET", "/ms/one", 1, "fa", "A", "valid")):
+                        for alias, _ in path_aliases(path):
+                            r = self._cs_req(rng, False)
+                            r.update({"method": m, "path": alias, "spath": path, "query": "x=1", "toff": 0, "enc": False, "body": "hello",
+                                      "fp": fp, "rsa": rsa, "hdr": "normal", "xh": []})
+                            sreqs.append({"tgt": tgt, "donor": tgt, "j": sj(tok) if tok else None, "cs": r, "clean": False})
+                        for alias in (path + "/", "/" + path, path.replace("/one", "/./one")):
+                            r = self._cs_req(rng, False)
+                            r.update({"method": m, "path": alias, "query": "x=1", "toff": 0, "enc": False, "body": "hello",
+                                      "fp": fp, "rsa": rsa, "hdr": "normal", "xh": []})
+                            sreqs.append({"tgt": tgt, "donor": tgt, "j": sj(tok) if tok else None, "cs": r, "clean": False})
+                    # the method in another case is another method (405), the query in another order / encoding another query
+                    for m2, q2, sq2 in (("post", "x=1", None), ("POST", "y=2&x=1", "x=1&y=2"), ("POST", "x=%31", "x=1"), ("POST", "x=1&", "x=1")):
+                        r = self._cs_req(rng, False)
+                        r.update({"method": m2, "path": "/s/one", "query": q2, "toff": 0, "enc": False, "body": "hello",
+                                  "fp": "fb", "rsa": "B", "hdr": "normal", "xh": []})
+                        if sq2 is not None:
+                            r["squery"] = sq2
+                        sreqs.append({"tgt": 2, "donor": 2, "j": None, "cs": r, "clean": False})
                 if bname == "all":
                     # a JWT group whose routes are the paths deployments like to exempt: no token / expired token -> 401
                     gs.append({"jwt": {"secret": sec, "prev": ""}, "sig": None, "routes": [["GET", pth] for pth in SRV_PATHS], "opts": []})
@@ -453,6 +509,11 @@ class C18(Property):
             k += 1
             out.append(self._eng_case(random.Random(1810 + k), force={
                 "method": "OPTIONS", "cors": "", "tgt": "jwt", "xh": bundles["preflight"], "jstate": st}))
+        for i in range(16):
+            k += 1
+            out.append(self._eng_case(random.Random(1810 + k), force={
+                "method": ("POST", "GET", "PUT", "DELETE")[i % 4], "cors": "", "tgt": "sig" if i % 3 else "both", "xh": [],
+                "jstate": "valid", "alias": i, "alias_signed": i in (5, 11)}))
         # (e) the bare content-security handler (verified methods) and (f) the bare cryption handler (every method)
         k16 = "0123456789abcdef"
         base = {"path": "/a", "query": "x=1", "body": "hello", "aeskey": k16, "fp": "A", "rsa": "A", "resp": "world"}
@@ -872,7 +933,8 @@ class C18(Property):
                "hdrfmt_dupsig_good_last", "hdrfmt_dupsig_bad_last", "hdrfmt_upper",
                "clen_more", "clen_less", "flush", "gzenc", "secpad", "secpad_gz", "sbody_tail", "sbody_head", "sbody_prefix", "sbody_prefix", "sbody_prefix", "sbody_suffix",
                "limit_none", "tol_negative", "tol_fraction", "ts_boundary", "ts_boundary", "ts_boundary", "ts_boundary",
-               "clen_huge", "text_edit", "text_edit", "text_edit", "ts_respelled", "hdrfmt_reorder"]
+               "clen_huge", "text_edit", "text_edit", "text_edit", "ts_respelled", "hdrfmt_reorder",
+               "path_alias", "path_alias", "path_alias", "path_alias_signed"]
     CRYPT_MUTS = ["none", "none", "none", "cipher_trunc", "cipher_lastbyte", "cipher_wrongkey", "cipher_dropblock",
                   "bodyraw_nl", "bodyraw_notb64", "bodyraw_short", "chunked", "aeskey_bad", "limit_small", "plain_body",
                   "clen_more", "clen_less", "nobody_badkey", "flush", "chunked_empty", "limit_none", "clen_huge"]
@@ -924,8 +986,20 @@ class C18(Property):
             r["smethod"] = rng.choice([m for m in CHECKED if m != r["method"]])
         elif mut == "spath":
             r["spath"] = r["path"] + rng.choice(["x", "/", "/.."])
+        elif mut == "path_alias":
+            # signed for the canonical spelling, sent under another spelling the router maps onto the same route
+            al = path_aliases(r["path"])
+            if c.get("routed_only"):
+                al = [x for x in al if x[1]]
+            r["spath"], r["path"] = r["path"], rng.choice(al)[0]
+        elif mut == "path_alias_signed":
+            # ... and signed for the very spelling that is sent: that is a signed request
+            r["path"] = rng.choice([x for x in path_aliases(r["path"]) if x[1]])[0]
         elif mut == "squery":
+            # also: the same parameters in another order / another encoding
             r["squery"] = r["query"] + rng.choice(["&z=9", "x", "&"])
+            if r["query"] == "x=1&y=2" and rng.random() < 0.5:
+                r["squery"] = rng.choice(["y=2&x=1", "x=%31&y=2", "x=1;y=2", "X=1&y=2"])
         elif mut == "sbody":
             r["sbody"] = rng.choice(["", "other body", "hellp"])
         elif mut in ("sbody_tail", "sbody_head"):
@@ -1122,6 +1196,25 @@ class C18(Property):
         for k in ("spath",):
             if r.get(k) is not None and k == "spath":
                 r["spath"] = full + r["spath"][len(had_path):] if r["spath"].startswith(had_path) else r["spath"]
+        # another spelling of the route's path that the router cleans onto the same route: signed for the canonical one
+        # (must be 403) or for the spelling sent (a signed request)
+        ms = c.get("muts", [])
+        if force and force.get("alias") is not None:
+            ms = ["path_alias_signed" if force.get("alias_signed") else "path_alias"]
+            c["muts"] = ms + ["mx"]
+            for k in ("smethod", "squery", "sbody", "stoff", "skey", "sigmut", "tsraw", "ctype", "keyb64", "hdrfmt", "edits",
+                      "xuri", "bodyraw", "cipherop", "tsfmt", "clenadd", "chunked", "secpad", "gzenc", "signtsplain"):
+                r.pop(k, None)
+            r.update({"hdr": "normal", "fp": "A", "rsa": "A", "toff": 0, "enc": False})
+            c["keys"], c["strict"], c["tol"] = ["A"], True, 100
+            c.pop("tolms", None)
+        if "path_alias" in ms or "path_alias_signed" in ms:
+            al = [a for a, ok in path_aliases(full) if ok]
+            r["path"] = al[force["alias"] % len(al)] if force and force.get("alias") is not None else rng.choice(al)
+            if "path_alias" in ms:
+                r["spath"] = full
+            else:
+                r.pop("spath", None)
         if r.get("xuri") is not None and c.get("muts", [""])[0] == "xuri_same":
             r["xuri"] = full + ("?" + r["query"] if r["query"] else "")
         c["uacb"], c["uscb"] = rng.random() < 0.5, rng.random() < 0.5
@@ -1429,9 +1522,12 @@ class C18(Property):
             if ent not in lst:
                 lst.append(ent)
         reqs = []
+        cleans = []
         for sq, o in zip(case["sreqs"], so["reqs"]):
             q, v = sq["cs"], o["view"]
             mid, pid, qid = self._mid(ids, q["method"]), ids("p:" + v["path"]), ids("q:" + v["query"])
+            if go_clean(v["path"]) != v["path"]:
+                add(cleans, "(%d, %d)" % (pid, ids("p:" + go_clean(v["path"]))))
             tsid, dig, k = ids("t:" + v["tsstr"]), ids("d:" + v["digest"]), kid(v["key"])
             hdr = "(mkHdr %s %s %s)" % (copt(fpid(v.get("fpsent", q["fp"])) if v["hasfp"] else None),
                                         copt(scid(v["secretct"]) if v["hassecret"] else None),
@@ -1483,12 +1579,12 @@ class C18(Property):
             reqs.append("(%s, %d%%nat, %s)" % (sreq, sq["tgt"], ob))
         tabs = "(mkTabs %s %s %s %s %s %s %s %s)" % (clist(mac), clist(rsa), clist(cmac), clist(sha), clist(aes),
                                                     clist(et), clist(dt), clist(b64))
-        return "mkSrv %s %s %s %s %s %s %s" % (cz(MAXBYTES), clist(["1", "2", "3", "4"]), clist(groups), tabs,
+        return "mkSrv %s %s %s %s %s %s %s %s" % (cz(MAXBYTES), clist(["1", "2", "3", "4"]), clist(groups), tabs,
                                                cbool(so["bindok"]), cbool(bool(case.get("cors")) and bool(so.get("corson"))),
-                                               clist(reqs))
+                                               clist(cleans), clist(reqs))
 
     SRV_SECRETS = ["secret-one-0001", "secret-two-0002", "secret-three-03"]
-    SRV_MUTS = ["none", "none", "none", "text_edit", "text_edit", "sbody_tail", "sbody_prefix", "ts_boundary", "ts_boundary", "toff_edge", "toff_out", "tsraw", "smethod", "spath", "squery", "sbody", "stoff", "skey",
+    SRV_MUTS = ["none", "none", "none", "path_alias", "path_alias", "path_alias", "path_alias_signed", "text_edit", "text_edit", "sbody_tail", "sbody_prefix", "ts_boundary", "ts_boundary", "toff_edge", "toff_out", "tsraw", "smethod", "spath", "squery", "sbody", "stoff", "skey",
                 "rsa_garbage", "hdr_missing", "hdr_nosig", "hdr_nofp", "sig_flip", "sig_other", "ctype_other", "body_after",
                 "hdrfmt_dupsig_bad_last", "cipher_lastbyte", "fp_unknown"]
     JWT_OK_CLS = ("valid", "auth_lower", "auth_upper", "auth_noprefix", "exp_next", "nbf_now", "iat_now", "siglast",
